@@ -17,7 +17,7 @@ RULE = ("use forms U (each paired with its manual inlining): string macro as lis
         "suffix), as key with a times body, as $deref field value; list macro (5 instruction-level bodies) as list item, as "
         "'@m:' key, inside $or/$not/$and_any_order; operand-level list macro; parameterised macro with 1 and 2 formals "
         "called with leaf, sub-tree and falsy (YAML int 0) arguments, with equal and with different arguments; a macro whose body uses "
-        "another macro (user listed first); a macro used inside a macro argument. Rules: EVERY sequence of length 1..K over "
+        "another macro (user listed first); a macro used inside a macro argument; scale family: a chain of 5 macros each using the next, one macro used 8 times, a parameterised macro called 8 times with different arguments, 12 macros in one rule. Rules: EVERY sequence of length 1..K over "
         "U and 2 plain items (K=2 quick, 3 thorough on a reduced U), so one macro is used 1..K times. For each rule: EVERY "
         "admissible order of the definition list and EVERY split of the definitions between the rule file and 1..2 extra "
         "macro files (both orders of the files). Oracle: Yaml2Regex(...).produce_regex() of the macro rule equals that of "
@@ -110,11 +110,29 @@ def all_rules(tier):
             if all(i >= len(U) for i in seq):
                 continue
             rules.append([pool[i] for i in seq])
+    rules += scale_rules()
     if tier == "thorough":
         small = [u for u in U if u[2] and u[2][0]["name"] in ("@s", "@r", "@p1", "@p2", "@l3", "@n")][:14]
         for seq in itertools.product(range(len(small)), repeat=3):
             rules.append([small[i] for i in seq])
     return rules
+
+
+def scale_rules():
+    """macro chains of depth 5 (each body uses the next macro), one macro used 8 times, 12 macros in one rule"""
+    out = []
+    chain = [{"name": f"@c{k}", "pattern": [{"$or": [f"@c{k + 1}", "ret"]}]} for k in range(1, 5)] + [{"name": "@c5", "pattern": "push"}]
+    inl = "push"
+    for _ in range(4):
+        inl = {"$or": [inl, "ret"]}
+    cons = [(f"@c{k}", f"@c{k + 1}") for k in range(1, 5)]
+    out.append([("@c1", inl, chain, cons)])
+    out.append([("@c1", inl, chain, cons), ("@c3", {"$or": [{"$or": ["push", "ret"]}, "ret"]}, chain, cons)])
+    out.append([("@s", "mov", [M_S], [])] * 8)
+    out.append([({"@p2": None, "a1": r, "a2": "rbx"}, {"mov": [r, "rbx"]}, [M_P2], []) for r in ("rax", "rcx", "rdx", "rsi", "rdi", "r8", "r9", "r10")])
+    many = [{"name": f"@m{k:02d}", "pattern": f"op{k:02d}"} for k in range(12)]
+    out.append([(f"@m{k:02d}", f"op{k:02d}", many, []) for k in range(12)])
+    return out
 
 
 def merged_defs(seq):
@@ -134,6 +152,16 @@ def cases_for(seq, tier):
     """yield (rule_file_macros, [file1 macros], [file2 macros]) for every admissible order and split"""
     defs, cons = merged_defs(seq)
     names = list(defs)
+    if len(names) > 4:
+        # large definition sets: the given order, its reverse where admissible, and three file splits
+        for order in (names, names[::-1]):
+            if admissible(list(order), cons):
+                yield [defs[n] for n in order], [], []
+        half = len(names) // 2
+        for f1, f2, rf in ((names[:half], [], names[half:]), (names[:half], names[half:], []), ([], names, [])):
+            if admissible(f1 + f2 + rf, cons):
+                yield [defs[n] for n in rf], [defs[n] for n in f1], [defs[n] for n in f2]
+        return
     for order in itertools.permutations(names):
         if not admissible(list(order), cons):
             continue
